@@ -19,6 +19,7 @@ import (
 	"math/big"
 	"math/rand"
 	"os"
+	"path/filepath"
 	"regexp"
 	"runtime"
 	"runtime/pprof"
@@ -29,6 +30,7 @@ import (
 	"time"
 
 	"github.com/Dash-Industry-Forum/livesim2/cmd/livesim2/app"
+	"github.com/Eyevinn/mp4ff/mp4"
 
 	"verifharness/lib"
 )
@@ -331,8 +333,9 @@ type harness struct {
 	nEval   int
 	nextID  int
 	retries int
-	fx      bool // the implementation has the proposed repair of calcStatusCode (probed)
-	fxSubs  bool // generated subtitle tracks are looked up in the reference track (probed)
+	fx      bool                  // the implementation has the proposed repair of calcStatusCode (probed)
+	flat    map[*lib.TLRep]string // representations whose media files are <prefix><nr>.m4s in the asset directory
+	fxSubs  bool                  // generated subtitle tracks are looked up in the reference track (probed)
 	dist    map[string]bool
 	base    map[string]baseResp
 	repDef  map[string]string
@@ -456,8 +459,8 @@ func (h *harness) statusRequest(a *lib.TLAsset, r *lib.TLRep, cfg lib.TLCfg, cod
 	now := availMS(ref, cfg.StartS, n) + 37
 	plain := cfg
 	cfg.Extra = plain.Extra + codesURL(codes)
-	url := lib.SegURL(a, cfg, r, segID, now)
-	base := h.baseline(lib.SegURL(a, plain, r, segID, now))
+	url := h.segURL(a, cfg, r, segID, now)
+	base := h.baseline(h.segURL(a, plain, r, segID, now))
 	resp := h.get(url)
 	dom := domainOf(ref, cfg, codes, n)
 	if r.Kind == "timesubs" {
@@ -644,6 +647,96 @@ func (h *harness) statusSweep(assets []*lib.TLAsset) {
 				codes := []codeSpec{{Cycle: cycle, Rsq: 1, Code: 404}}
 				for n := int64(0); n <= 3*cycle*ref.Timescale/minDur && n < 40; n++ {
 					h.statusRequest(a, mainRep, cfg, codes, n, 2)
+				}
+			}
+		}
+	}
+}
+
+func (h *harness) segURL(a *lib.TLAsset, cfg lib.TLCfg, r *lib.TLRep, segID, now int64) string {
+	if pfx, ok := h.flat[r]; ok {
+		return fmt.Sprintf("/livesim2/%s%s/%s%d%s?nowMS=%d", cfg.URLPrefix(), a.Path, pfx, segID, r.Ext, now)
+	}
+	return lib.SegURL(a, cfg, r, segID, now)
+}
+
+// loadFlatAsset parses an asset whose representations are <prefix>init.mp4 / <prefix><nr>.m4s in one directory
+// (bbb_hevc_ac3_8s: video_ = representation 1, audio_ = representation 2) with the harness's own parser.
+func (h *harness) loadFlatAsset(vodRoot, path, mpdName string, reps [][3]string) (*lib.TLAsset, error) {
+	a := &lib.TLAsset{Path: path, MPD: mpdName}
+	dir := filepath.Join(vodRoot, path)
+	for _, rs := range reps { // prefix, id, kind
+		initData, err := os.ReadFile(filepath.Join(dir, rs[0]+"init.mp4"))
+		if err != nil {
+			return nil, err
+		}
+		fi, err := mp4.DecodeFile(bytes.NewReader(initData))
+		if err != nil || fi.Init == nil || fi.Init.Moov == nil {
+			return nil, fmt.Errorf("%s: no moov (%v)", rs[0], err)
+		}
+		vr := &lib.VodRep{ID: rs[1], Dir: dir, Timescale: int64(fi.Init.Moov.Trak.Mdia.Mdhd.Timescale), IsAudio: rs[2] == "audio", IsVideo: rs[2] == "video"}
+		var trex *mp4.TrexBox
+		if fi.Init.Moov.Mvex != nil {
+			trex = fi.Init.Moov.Mvex.Trex
+		}
+		for nr := int64(1); ; nr++ {
+			data, err := os.ReadFile(filepath.Join(dir, fmt.Sprintf("%s%d.m4s", rs[0], nr)))
+			if err != nil {
+				break
+			}
+			si, err := lib.ParseMediaSegment(data, trex)
+			if err != nil {
+				return nil, err
+			}
+			vr.Segs = append(vr.Segs, lib.VodSeg{File: fmt.Sprintf("%s%d.m4s", rs[0], nr), Start: si.Tfdt, End: si.Tfdt + si.Dur, Nr: nr, Payload: si.Payload, NSamples: si.NSamples})
+		}
+		if len(vr.Segs) == 0 {
+			return nil, fmt.Errorf("%s: no segments", rs[0])
+		}
+		r := &lib.TLRep{VodRep: vr, Trex: trex, Kind: rs[2], Ext: ".m4s"}
+		h.flat[r] = rs[0]
+		a.Reps = append(a.Reps, r)
+	}
+	ref := a.Ref()
+	a.RefTS, a.RefDur = ref.Timescale, ref.Duration()
+	a.LoopMS = 1000 * ref.Duration() / ref.Timescale
+	return a, nil
+}
+
+// leadSweep: statuscode_ x audio x every addressing mode on an asset whose VoD audio cut points LEAD the
+// video boundaries (bbb_hevc_ac3_8s: audio cut at 0 / 1.984 / 4.0 / 5.984 s, video at 0 / 2 / 4 / 6 s), with
+// cycles that start on those boundaries, over several loops: the audio segment n belongs to the cycle in
+// which reference (video) segment n starts, whatever the VoD audio table says.
+func (h *harness) leadSweep(a *lib.TLAsset) {
+	ref := a.Ref()
+	var audio *lib.TLRep
+	for _, r := range a.Reps {
+		if r.Kind == "audio" {
+			audio = r
+		}
+	}
+	cycles := []int64{2, 6, 10}
+	if h.c.Thorough() {
+		cycles = []int64{2, 4, 6, 8, 10, 14, 30}
+	}
+	for ci, cycle := range cycles {
+		var nMax int64
+		for nMax = 0; ref.LoopS(nMax) < 4*cycle*ref.Timescale || nMax < 3*int64(len(ref.Segs)); nMax++ {
+		}
+		perCycle := cycle*ref.Timescale/(ref.Segs[0].End-ref.Segs[0].Start) + 1
+		for rsq := int64(0); rsq < perCycle && rsq < 3; rsq++ {
+			for mi, mode := range []string{"number", "tlnr", "tlt"} {
+				filter := []string{"", audio.ID, "*"}[(ci+mi+int(rsq))%3]
+				codes := []codeSpec{{Cycle: cycle, Rsq: rsq, Code: codeValues[(ci+mi)%len(codeValues)], Rep: filter}}
+				cfg := lib.TLCfg{Snr: -1, Tsbd: -1, Mode: mode}
+				if (ci+mi)%4 == 3 {
+					cfg.StartS, cfg.Snr = 50, 2
+				}
+				for n := int64(0); n <= nMax; n++ {
+					h.statusRequest(a, audio, cfg, codes, n, 2)
+					if filter != audio.ID && n%3 == 0 {
+						h.statusRequest(a, ref, cfg, codes, n, 2)
+					}
 				}
 			}
 		}
@@ -1441,7 +1534,8 @@ func (h *harness) mpdShapeSweep(a *lib.TLAsset) {
 	r := a.Ref()
 	segMS := (r.Segs[0].End - r.Segs[0].Start) * 1000 / r.Timescale
 	mpds := []string{"Manifest.mpd", "Manifest_imsc1.mpd", "Manifest_thumbs.mpd", "Manifest_endNumber.mpd"}
-	shapes := []string{"", "periods_60/", "periods_120/", "periods_60/continuous_1/", "timesubsstpp_en,sv/", "ato_1/", "periods_120/timesubswvtt_en/", "START/periods_60/"}
+	shapes := []string{"", "periods_60/", "periods_120/", "periods_60/continuous_1/", "timesubsstpp_en,sv/", "ato_1/", "periods_120/timesubswvtt_en/", "START/periods_60/",
+		"STOP/", "STOP/periods_60/", "STOP/periods_120/continuous_1/", "STOPREL/", "STOPREL/periods_60/", "STOPFUTURE/", "STOPFUTURE/periods_60/"}
 	pats := []string{"u1d1,d1u1", "u2d3,d1u1,u1"}
 	k := 0
 	for si, shape := range shapes {
@@ -1458,6 +1552,17 @@ func (h *harness) mpdShapeSweep(a *lib.TLAsset) {
 					cfg.StartS, cfg.Snr, cfg.Extra = 1000, 4, strings.TrimPrefix(shape, "START/")+"traffic_"+p+"/"
 				}
 				now := int64(1000000+1000*k) + 140000 + 437
+				segNow := now // the instant up to which segments exist
+				switch {      // every MPD return path: after the stop time (static MPD), absolute and relative, and before it
+				case strings.HasPrefix(shape, "STOP/"):
+					segNow = (now/1000 - 30) * 1000
+					cfg.Extra = fmt.Sprintf("stop_%d/", segNow/1000) + strings.TrimPrefix(shape, "STOP/") + "traffic_" + p + "/"
+				case strings.HasPrefix(shape, "STOPREL/"):
+					segNow = now - 25000
+					cfg.Extra = "stoprel_-25/" + strings.TrimPrefix(shape, "STOPREL/") + "traffic_" + p + "/"
+				case strings.HasPrefix(shape, "STOPFUTURE/"):
+					cfg.Extra = fmt.Sprintf("stop_%d/", now/1000+100) + strings.TrimPrefix(shape, "STOPFUTURE/") + "traffic_" + p + "/"
+				}
 				url := fmt.Sprintf("/livesim2/%s%s/%s?nowMS=%d", cfg.URLPrefix(), a.Path, mpdName, now)
 				resp := h.get(url)
 				id := fmt.Sprint(h.id())
@@ -1500,7 +1605,7 @@ func (h *harness) mpdShapeSweep(a *lib.TLAsset) {
 				}
 				// a segment behind every BaseURL of this configuration
 				prefix := strings.TrimSuffix(cfg.URLPrefix(), "traffic_"+p+"/")
-				n := (now-cfg.StartS*1000)/segMS - 2
+				n := (segNow-cfg.StartS*1000)/segMS - 2
 				file := fmt.Sprintf("%d.m4s", cfg.EffSnr()+n)
 				if mode == "tlt" {
 					file = fmt.Sprintf("%d.m4s", r.LoopS(n))
@@ -1758,7 +1863,7 @@ func run(c *lib.Ctx) error {
 	if err != nil {
 		return err
 	}
-	h := &harness{c: c, ls: ls, rng: rand.New(rand.NewSource(c.Seed)), dist: map[string]bool{}, base: map[string]baseResp{}, repDef: map[string]string{}}
+	h := &harness{c: c, ls: ls, rng: rand.New(rand.NewSource(c.Seed)), dist: map[string]bool{}, base: map[string]baseResp{}, repDef: map[string]string{}, flat: map[*lib.TLRep]string{}}
 	// Which calcStatusCode is under test: with the repair 497da16 of the cycle start (model variant true) or
 	// without it (a tree in which it is reverted; model variant false, the oracle then reports the defects).
 	// Segment 5 of testpic_2s with start_30 is the second segment of the cycle that starts at 8 s: the
@@ -1807,6 +1912,11 @@ func run(c *lib.Ctx) error {
 		h.familySweep(withAudio)
 	}
 	if on("w") {
+		if bbb, err := h.loadFlatAsset(lib.TestVodRoot, "bbb_hevc_ac3_8s", "manifest.mpd", [][3]string{{"video_", "1", "video"}, {"audio_", "2", "audio"}}); err == nil {
+			h.leadSweep(bbb)
+		} else {
+			c.Res.Notes = append(c.Res.Notes, "bbb_hevc_ac3_8s not loaded: "+err.Error())
+		}
 		h.wrapSweep(withAudio)
 		h.listSweep(withAudio)
 	}
@@ -1832,7 +1942,7 @@ func run(c *lib.Ctx) error {
 	c.Res.Evaluations = h.nEval
 	c.Res.ModelCases = len(h.terms)
 	c.Res.DistinctNontrivial = len(h.dist)
-	c.Res.Rule = "statuscode_ on fractional-second loops (29.97 Hz WAVE asset, synthetic NTSC tables) at segment numbers after 125-875 loop wraps with cycles dividing 1001 s; pattern lists whose entries differ in one field, in both orders, and exact duplicates; statuscode_ combined with every other timing/addressing family (ato below/equal/above a segment and inf, tsbd, chunked mode, periods, start, snr, $Time$) and every track kind (video, audio, stored text, thumbnails, generated subtitles); statuscode_: bundled assets (1, 2, 4, ... segments; 2 s, 6 s, 8 s, alternating, 2.002 s) x cycle {3,5,8,30,31} x every rsq up to the number of segments per cycle x every segment over >= 6 cycles; representation filters (*, video id, audio id, no match), video and audio, Number / Timeline-Number / Timeline-Time, two and three simultaneous patterns; start_30, snr_7, start_1000/snr_3 (findings stream); calcStatusCode on random synthetic tables (1-6 segments, irregular durations, 5 timescales). traffic_: every state (up, down, slow, hang) crossed with every delivery mode (chunked low latency video/audio, audio, encrypted, generated subtitles, stored text, thumbnails, $Time$, ato/tsbd); every pattern of 1-4 intervals over {u,d} with durations 1-3 at every second of 3 cycles, three patterns per URL selected by bu<i>; s/h patterns recognised by their delay; all patterns over {u,d,s,h} and random strings through CreateLossItvls/StateAt; BaseURL elements of every Period of the MPD under every MPD shape (1..3 Periods, continuous, three addressing modes, MPD variants with subtitles/thumbnails/endNumber, generated subtitles, ato, start/snr) and a segment behind each BaseURL. distinct = distinct (configuration, request) pairs for which the oracle confirmed the prescribed answer"
+	c.Res.Rule = "statuscode_ x audio x Number/tlnr/tlt on bbb_hevc_ac3_8s, whose VoD audio cut points lead the video boundaries, with cycles starting on those boundaries over several loops; traffic_ MPDs after the stop time (stop_, stoprel_, single and multi period) and before it; statuscode_ on fractional-second loops (29.97 Hz WAVE asset, synthetic NTSC tables) at segment numbers after 125-875 loop wraps with cycles dividing 1001 s; pattern lists whose entries differ in one field, in both orders, and exact duplicates; statuscode_ combined with every other timing/addressing family (ato below/equal/above a segment and inf, tsbd, chunked mode, periods, start, snr, $Time$) and every track kind (video, audio, stored text, thumbnails, generated subtitles); statuscode_: bundled assets (1, 2, 4, ... segments; 2 s, 6 s, 8 s, alternating, 2.002 s) x cycle {3,5,8,30,31} x every rsq up to the number of segments per cycle x every segment over >= 6 cycles; representation filters (*, video id, audio id, no match), video and audio, Number / Timeline-Number / Timeline-Time, two and three simultaneous patterns; start_30, snr_7, start_1000/snr_3 (findings stream); calcStatusCode on random synthetic tables (1-6 segments, irregular durations, 5 timescales). traffic_: every state (up, down, slow, hang) crossed with every delivery mode (chunked low latency video/audio, audio, encrypted, generated subtitles, stored text, thumbnails, $Time$, ato/tsbd); every pattern of 1-4 intervals over {u,d} with durations 1-3 at every second of 3 cycles, three patterns per URL selected by bu<i>; s/h patterns recognised by their delay; all patterns over {u,d,s,h} and random strings through CreateLossItvls/StateAt; BaseURL elements of every Period of the MPD under every MPD shape (1..3 Periods, continuous, three addressing modes, MPD variants with subtitles/thumbnails/endNumber, generated subtitles, ato, start/snr) and a segment behind each BaseURL. distinct = distinct (configuration, request) pairs for which the oracle confirmed the prescribed answer"
 	keys := make([]string, 0, len(c.Res.Inputs))
 	for k := range c.Res.Inputs {
 		keys = append(keys, k)
